@@ -235,7 +235,7 @@ def run(ctx):
     # ---- archive-node wiring (core.InitializeRunningEventFilter): behaviours of the model without the
     # pruner (its weight goes to graceful stops, so that lazy initialisations with a snapshot to
     # consume - and faults in exactly that mutation - are frequent), from genesis
-    n_arch = {"mid": (120, 15)} if thorough else {"mid": (30, 0)}
+    n_arch = {"mid": (120, 10)} if thorough else {"mid": (30, 0)}
     arch_state = [False, True] if thorough else [False]
     for i, (sc, (nc, ne)) in enumerate(n_arch.items()):
         txt, c = cfg_text(sc, faithful, faults=True, mbt=True, prune=False)
@@ -245,7 +245,7 @@ def run(ctx):
         ninit = sum(1 for b in bs for st in b if st["res"].get("init"))
         ctx.coverage["archive_init_fault_steps"] = ctx.coverage.get("archive_init_fault_steps", 0) + ninit
         for be in (["memory", "pebble"] if thorough else ["memory"]):
-            part = bs if be == "memory" else bs[:40]
+            part = bs if be == "memory" else bs[:20]
             res = engine(ctx, binary, "TestCrashConform",
                          {"consts": c, "behaviours": part, "newState": arch_state, "backends": [be],
                           "pruneBatch": 1, "plain": True}, timeout=3000)
